@@ -27,8 +27,9 @@ ONE_QUBIT_GATES = {"H", "X", "Y", "Z", "S", "T", "RX", "RY", "RZ", "PHASE"}
 TWO_QUBIT_GATES = {"CNOT", "CX", "CY", "CZ", "CRX", "CRY", "CRZ", "CPHASE", "XX", "SWAP"}
 THREE_QUBIT_GATES = {"CSWAP"}
 
-ONE_TARGET_GATES = {"H", "X", "Y", "Z", "S", "T", "RX", "RY", "RZ", "PHASE",
-                    "CNOT", "CX", "CY", "CZ", "CRX", "CRY", "CRZ", "CPHASE"}
+ONE_TARGET_GATES = {"H", "X", "Y", "Z", "S", "T", "SDAG", "RX", "RY", "RZ", "PHASE",
+                    "CNOT", "CX", "CY", "CZ", "CH", "CS", "CT", "CRX", "CRY", "CRZ", "CPHASE",
+                    "MEASURE", "CMEASURE"}
 TWO_TARGET_GATES = {"XX", "SWAP", "CSWAP"}
 
 PARAMETERIZED_GATES = {"RX", "RY", "RZ", "PHASE", "CRX", "CRY", "CRZ", "CPHASE", "XX"}
